@@ -226,6 +226,7 @@ impl Runner {
                 let n = s["n"].as_u64().unwrap_or(1) as usize;
                 let a = addr_from(&s["addr"]);
                 let old = self.w.nodes[n].addr;
+                self.w.nodes[n].old_addrs.push(old);
                 self.w.nodes[n].addr = a;
                 let t = self.w.now_us;
                 self.w.log(json!({"ev":"Migrate","t":t,"n":n,"old":addr_id(old),"new":addr_id(a)}));
